@@ -759,6 +759,15 @@ Proof.
   rewrite Forall_forall in Hh. destruct (Hh _ Hin) as [Hle _]. eapply ts_le_trans; eauto.
 Qed.
 
+(* contrapositive, as used by the check: a thread that is at rest for clock reading `now` (waiting, no signal
+   under way, wait not over) has nothing due in its active list *)
+Theorem at_rest_nothing_due n st d now : good n st -> thr st = Wait d -> pend st = O ->
+  must_wake st now = false -> forall t, In t (active st) -> ts_le (t_ts t) now = false.
+Proof.
+  intros G Ht Hp Hm t Hin. destruct (ts_le (t_ts t) now) eqn:E; auto.
+  destruct (due_enables_wake _ _ _ _ _ G Ht Hin E) as [C|C]; [congruence|lia].
+Qed.
+
 (* the signal is delivered without any blocking step: LSignal is enabled whenever one is pending *)
 Theorem signal_enabled st : (0 < pend st)%nat -> exists st', step st LSignal = Some (st', ONone)
   /\ (is_wait (thr st) = true -> sig st' = true).
